@@ -29,6 +29,7 @@ import NemoVerif.Lemmas.SerializeIndex
 import NemoVerif.Models.CoreVM.Run
 import NemoVerif.Lemmas.CleanUpBisimWrites
 import NemoVerif.Lemmas.CleanUpBisimHeads
+import NemoVerif.Lemmas.CleanUpBisimLoops
 namespace NemoVerif.C11
 open NemoVerif NemoVerif.Serialize NemoVerif.CleanUp
 
@@ -471,9 +472,10 @@ finding `cleanup-dangling-parent`, established by fixes/C11-cleanup-dangling-par
   `nameFor` (what `_flow_head_changed` computes), `setHeadPos` (`head.position = p`), `setHeadStatus` (`head.status = st`),
    incl. the branch where the callback raises after the head was unregistered           proved up to the model giving up (`aged_head_writes`)
   `setAction` (`state.actions[uid] = a`)                                                  proved (`Bisim.Aged.setAction`)
+  `updateActionStatusByEvent` (loop over ALL instances; the live iterations over discarded ones do nothing)   proved from I1 (`aged_update_action_status`)
   `abortFlow`: deactivation loops over `child_flow_uids` (the aged list is the live one filtered; the skipped iterations
-   are no-ops, see above), `releaseAction` → `generateUmimEvent` → `updateActionStatusByEvent` (iterates ALL instances: the
-   discarded ones are done, hence not listening, hence skipped), `failedEvent`, `restartActivated`      not reached (every piece it reads is covered above; needs I2 and the
+   are no-ops, see above), `releaseAction` → `generateUmimEvent` (128-way case split around proved pieces), `failedEvent`,
+   `restartActivated`      not reached (every piece it reads is covered above; needs I2 and the
                                                                                          loop-over-filtered-list argument)
   `eventMatchingScore` (reads `state.actions` for the start arguments of the event's action)   needs: actions named by queued events belong to kept instances — not reached
   `handleEventMatching` (`createEventReference`, `startFlow` look up `source_flow_instance_uid` of the event being
@@ -643,6 +645,11 @@ theorem aged_events_agree {rm : List FUid} {f : FUid} (hk : keepB rm f = true) (
 theorem aged_head_writes {rm : List FUid} {k : CoreIndex.Key} (hk : keepB rm k.1 = true) (p : Nat) (st : HeadStatus) :
     Diag rm (setHeadPos k p) ∧ Diag rm (setHeadStatus k st) ∧ Diag rm (nameFor k.1 p st) :=
   ⟨diag_setHeadPos hk p, diag_setHeadStatus hk st, diag_nameFor hk p st⟩
+
+/-- `_update_action_status_by_event` — a loop over ALL instances: the discarded ones are done, hence not listening, hence
+    skipped by the live run (`sim_forIn_filter`); the others refer to the same action objects in both tables -/
+theorem aged_update_action_status {rm : List FUid} (e : Match.Ev) : Diag rm (updateActionStatusByEvent e) :=
+  diag_updateActionStatusByEvent e
 
 /-- what `Diag` says, spelled out on the non-vacuity pair: running `setHeadPos ("m","h0") 1` in `sLive` and in `sAged` -/
 example : Sim2U ["d"] Eq (setHeadPos ("m", "h0") 1) (setHeadPos ("m", "h0") 1) sLive sAged :=
